@@ -11,6 +11,7 @@ import (
 	"pgregory.net/rapid"
 	"verif/harness/hist"
 	"verif/harness/observe"
+	"verif/harness/world"
 )
 
 // C05 — the tape is append-only and stays a standard tar stream.
@@ -126,7 +127,7 @@ func (o *c05) Nontrivial(x *hctx) bool {
 var fsWeights = map[string]int{
 	"create": 6, "openfile": 5, "write": 8, "writestring": 2, "sync": 1, "close": 8,
 	"mkdir": 6, "mkdirall": 3, "remove": 4, "removeall": 3, "rename": 6,
-	"chmod": 2, "chown": 2, "chtimes": 2, "stat": 1, "list": 1, "reopen": 1,
+	"chmod": 2, "chown": 2, "chtimes": 2, "stat": 1, "list": 1, "reopen": 1, "rebuild": 1,
 }
 
 func init() {
@@ -136,6 +137,36 @@ func init() {
 func TestC05(t *testing.T) {
 	rapid.Check(t, func(t *rapid.T) {
 		cfg := hist.DrawCfg(t, 50, nil)
-		rapidHistory(t, "C05", cfg, fsWeights, hist.Universe, &c05{}, avoidFor("C05"))
+		opts := world.Opts{}
+		switch rapid.IntRange(0, 5).Draw(t, "drive-variant") {
+		case 0:
+			opts.Overwrite = true // the first writer starts the tape over: that is the one explicit overwrite
+		case 1:
+			opts.TapeLikeWriter = true
+			cfg = tapeLikeCfg(cfg)
+		}
+		rapidHistoryOpts(t, "C05", cfg, fsWeights, hist.Universe, &c05{}, avoidFor("C05"), opts)
 	})
+}
+
+// tapeLikeCfg maps a configuration onto one that the write path accepts for a
+// non-regular drive (minisign, brotli and parallelgzip are regular-file only; gzip and lz4
+// need records of at least 64 KiB).
+func tapeLikeCfg(cfg world.Cfg) world.Cfg {
+	if cfg.Signature == "minisign" {
+		cfg.Signature = "pgp"
+	}
+	switch cfg.Compression {
+	case "brotli", "parallelgzip":
+		cfg.Compression = "bzip2"
+	case "zstandard":
+		if cfg.RecordSize < 2 {
+			cfg.Compression = "bzip2" // the window (a record) must be at least 1024 bytes
+		}
+	case "gzip", "lz4":
+		if cfg.RecordSize < 128 {
+			cfg.Compression = "bzip2"
+		}
+	}
+	return cfg
 }
